@@ -90,3 +90,6 @@ def run(ctx, R):
     # formatter / parser agreement on keyword and field order: parser side
     v1model.c01_provenance_only(ctx, R, 'C08.F')
     C16mod.fromstr_delegation(ctx, R, 'C08.S')
+    # canonical lines are not rejected: at the level of token predicates the parser rejects no line satisfying the acceptance condition,
+    # and a formatted line satisfies it (Display of u16 has no sign / leading zero and parses back: axiom)
+    v1model.c01_accept(ctx, R, 'C08.A', soundness=False)
